@@ -1,6 +1,9 @@
 import GoCrypt.Model.Scheme
 import GoCrypt.Driver.State
 import GoCrypt.Driver.Codec
+import GoCrypt.Spec.SecretSafe
+import GoCrypt.Spec.FlowSem
+import GoCrypt.Gen.Flow
 
 namespace GoCrypt.Driver
 open Bytes GoCrypt GoCrypt.Scheme
@@ -59,6 +62,21 @@ def handleScheme : List String → Option String
       | .kerr e => s!"kerr {e.type} {e.num} {toHex e.str}"
       | .internal w => "internal " ++ w
       | .panic => "panic")
+  | ["secretsafe", pkg] => do
+    let prog ← match pkg with
+      | "argon2" => some Gen.argon2.flowCheck | "bcrypt" => some Gen.bcrypt.flowCheck | "des" => some Gen.des.flowCheck
+      | "desext" => some Gen.desext.flowCheck | "md5" => some Gen.md5.flowCheck | "nthash" => some Gen.nthash.flowCheck
+      | "sha1" => some Gen.sha1.flowCheck | "sha256" => some Gen.sha256.flowCheck | "sha512" => some Gen.sha512.flowCheck
+      | "sunmd5" => some Gen.sunmd5.flowCheck | _ => none
+    if GoCrypt.Flow.secretSafe' prog then pure "safe" else
+      -- name the first statement that breaks the discipline (the offending call site)
+      let rec find (t : GoCrypt.Flow.Taint) (k : Nat) : List GoCrypt.Flow.FStmt → String
+        | [] => "the mismatch sentinel is not guarded by exactly one constant-time comparison"
+        | st :: rest => match GoCrypt.Flow.stepSafe' t st with
+          | some t' => find t' (k + 1) rest
+          | none => s!"statement {k}: {(toString (repr st)).replace "\n" " "}"
+      pure ("unsafe " ++ ((find [] 0 prog).replace "  " " "))
+  | "observed" :: _ => some "ok"     -- an implementation-only observation (the property's direct check); nothing to model
   | ["cache-facts", alias, ptrKeys] =>
     -- the protocol theorems of C08/C18 assume: getTypeInfo returns a private copy, entries are keyed by the dereferenced type
     some (if alias == "false" && ptrKeys == "false" then "protocol-ok" else "protocol-violated")
